@@ -54,14 +54,25 @@ def build(p: dict[str, Any]) -> dict[str, Any]:
         st_i.update(lon="float", lat="float")
         defaults.update(lon=0.0, lat=0.0)
         out_i.update(lon="f8", lat="f8")
-    kills = {str(k): v for k, v in p.get("kills", {}).items()}
+    if p.get("packed_out"):
+        out_i["Z"] = dict(datatype="i2", scale_factor=0.01)  # packed output variable, as in examples/killer/dense.yaml (Z: the reader finds the particles of a dense row through X)
+    if p.get("scalar"):
+        # a forcing-derived instance variable in the output: the value of the particle's own cell, identified by the cell indices
+        w["scalars"] = dict(temp=dict(kind="xyt", a=3.0, b=0.5, c=-0.25, e=0.0))
+        st_i["temp"] = "float"
+        defaults["temp"] = -99.0
+        out_i["temp"] = "f8"
+    # kills keyed by model time (a warm-started continuation counts its steps anew)
+    kills = {str(tadd(start, sgn * int(k) * dt)): v for k, v in p.get("kills", {}).items()}
     rel = dict(columns=cols, rows=rows, header=True)
     if p.get("continuous"):
         rel.update(continuous=True, freq=p["continuous"] * dt)
     run = dict(start=start, stop=stop, dt=dt, reversed=rev, reference=p.get("reference"), advection="EF", release=rel,
                state=dict(instance_variables=st_i, particle_variables=st_p, default_values=defaults),
-               ibm=dict(module=C.REC_IBM, kill=kills, age=True, log=False),
+               ibm=dict(module=C.REC_IBM, kill_time=kills, age=True, log=False),
                output=dict(period=p["period"] * dt, numrec=p.get("numrec", 0), layout=p.get("layout", "sparse"), instance=out_i, particle=out_p))
+    if p.get("scalar"):
+        run["extra_forcing"] = ["temp"]
     if p.get("filename"):
         run["output"]["filename"] = p["filename"]
     if p.get("ncargs"):
